@@ -61,6 +61,8 @@ type FS struct {
 	FlockFn  func(fd int, how int) error
 	Flocks   []FlockRec
 	OnMutate func(fsys *FS, op, path string) // called after every mutation (snapshots)
+	BeforeOp func(fsys *FS, op, path string) // called before every operation (observer scheduling)
+	Torn     bool                            // a write of several bytes may become visible in two steps
 }
 
 var Cur *FS
@@ -127,6 +129,9 @@ func pathErr(op, path string, err error) error {
 // step accounts for one file operation; it returns an injected error, and
 // tells whether mutations are still allowed (false after the crash point).
 func (f *FS) step(op, path string) (err error, live bool) {
+	if f.BeforeOp != nil {
+		f.BeforeOp(f, op, path)
+	}
 	idx := f.Ops
 	f.Ops++
 	f.Log = append(f.Log, op+" "+path)
@@ -154,6 +159,16 @@ func (f *FS) now() int64 {
 		return f.NowFn()
 	}
 	return f.NowSec
+}
+
+// Rebind makes every open handle refer to the node its path names in the
+// current node table (used when an observer's view moves to a later snapshot).
+func (f *FS) Rebind() {
+	for _, h := range f.handles {
+		if n := f.Nodes[h.path]; n != nil {
+			h.node = n
+		}
+	}
 }
 
 // ---- FileInfo ----
@@ -598,6 +613,15 @@ func (f *FS) writeAt(h *handle, p []byte, off int64, live bool, op string) int {
 	end := off + int64(n)
 	if gap := end - int64(len(h.node.Data)); gap > 0 {
 		h.node.Data = append(h.node.Data, make([]byte, gap)...)
+	}
+	if f.Torn && n > 1 {
+		// other processes may observe the write half done, at any byte
+		// (representative offsets for long buffers)
+		k := prefixLen(n)
+		if k > 0 {
+			copy(h.node.Data[off:off+int64(k)], p[:k])
+			f.mutated(op+"-torn", h.path)
+		}
 	}
 	copy(h.node.Data[off:end], p[:n])
 	h.node.Mtime = f.now()
